@@ -477,7 +477,10 @@ def _parse_string_literal(literal: str) -> _expression.String:
                 if s not in "0123456789abcdef":
                     raise DSDLSyntaxError("Invalid hex character: %r" % s)
                 h += s
-            return chr(int(h, 16))
+            code_point = int(h, 16)
+            if code_point > 0x10FFFF:
+                raise DSDLSyntaxError("Invalid Unicode code point: %s" % h)
+            return chr(code_point)
 
         try:
             return {
